@@ -14,7 +14,7 @@ An op is a JSON-like list:
   ['delete_one'|'delete_many', filter]
   ['find', filter, projection|None, sort|None, skip, limit]
   ['find_one', filter, projection|None]
-  ['find_rewind', filter, projection|None, script]     the cursor is kept; script = cursor actions
+  ['find_rewind', filter, projection|None, script, sort|None]   the cursor is kept; script = cursor actions
        ['rewind'] | ['next'] | ['index', i] | ['clone'] | ['distinct', key]  (default [['rewind']])
   ['cursor_again', k, action]               one more action on the k-th cursor still kept
   ['foau', filter, update, projection|None, after, upsert, sort|None]
@@ -365,7 +365,7 @@ class C07Gen(hist.HistGen):
             self.open_cursors += 1
             return ['find_rewind', self.filt() if r.random() < 0.4 else {},
                     self.maybe_projection(0.3),
-                    [self.cursor_action() for _ in range(r.choice([1, 1, 2, 3]))]]
+                    [self.cursor_action() for _ in range(r.choice([1, 1, 2, 3]))], self.sort()]
         if k == 'cursor_again':
             return ['cursor_again', r.randrange(8), self.cursor_action()]
         if k == 'foau':
